@@ -134,4 +134,42 @@ mod verif_kani {
         std::mem::forget(r);
         kani::cover!(true);
     }
+
+    /// integers of the same sign are equal exactly when they are the same integer, over the full 64-bit ranges
+    /// (no detour through floating point), and distinct integers have distinct hash transcripts
+    #[kani::proof]
+    #[kani::unwind(8)]
+    fn k_integer_eq_exact() {
+        let a: u64 = kani::any(); let b: u64 = kani::any();
+        let (x, y) = (JsonValue::Number(NumberValue::Positive(a)), JsonValue::Number(NumberValue::Positive(b)));
+        assert!((x == y) == (a == b));
+        let mut ha = Tr { buf: [0; 6], n: 0 }; let mut hb = Tr { buf: [0; 6], n: 0 };
+        x.hash(&mut ha); y.hash(&mut hb);
+        assert!(same(&ha, &hb) == (a == b));
+        let c: i64 = kani::any(); let d: i64 = kani::any();
+        let (p, q) = (JsonValue::Number(NumberValue::Negative(c)), JsonValue::Number(NumberValue::Negative(d)));
+        assert!((p == q) == (c == d));
+        let mut hc = Tr { buf: [0; 6], n: 0 }; let mut hd = Tr { buf: [0; 6], n: 0 };
+        p.hash(&mut hc); q.hash(&mut hd);
+        assert!(same(&hc, &hd) == (c == d));
+        std::mem::forget((x, y, p, q));
+        kani::cover!(true);
+    }
+
+    /// arrays compare lexicographically: [a] against [b, c] over all small integers
+    #[kani::proof]
+    #[kani::unwind(6)]
+    fn k_array_order_lexicographic() {
+        let a: u8 = kani::any(); let b: u8 = kani::any(); let c: u8 = kani::any();
+        let n = |v: u8| JsonValue::Number(NumberValue::Positive(v as u64));
+        let mut v1 = Vec::with_capacity(2); v1.push(n(a));
+        let mut v2 = Vec::with_capacity(2); v2.push(n(b)); v2.push(n(c));
+        let x = JsonValue::Array(v1); let y = JsonValue::Array(v2);
+        let o = x.cmp(&y);
+        if a < b { assert!(o == Ordering::Less); } else if a > b { assert!(o == Ordering::Greater); } else { assert!(o == Ordering::Less); }
+        assert!(y.cmp(&x) == o.reverse());
+        assert!(x.cmp(&JsonValue::Null) == Ordering::Greater && x.cmp(&n(a)) == Ordering::Greater);
+        std::mem::forget((x, y));
+        kani::cover!(true);
+    }
 }
